@@ -1488,4 +1488,11 @@ def probes(rng, tier):
     COVERAGE['classes_without_recipe'] = [n for n in names if n not in seen_classes and n not in ABSTRACT_BASES]
     COVERAGE['recipes_failed_to_build'] = sorted(set(failed_build))
     C.write_replay(PID, 'coverage', COVERAGE)
+    # make the measured class coverage visible in evidence/C03.json (the driver copies ASSUMPTIONS at the end)
+    note = ('probe coverage of this run: %d of %d distinct class names (%d concrete Operator classes found by '
+            'introspection) were instantiated and probed (abstract bases: %s; without recipe: %s; %d recipe variants could not be built, mostly '
+            'NotImplemented gradient/proximal/convex_conj combinations)'
+            % (len(seen_classes & set(names)), len(names), len(allc), ', '.join(COVERAGE['abstract_bases']) or 'none',
+               ', '.join(COVERAGE['classes_without_recipe']) or 'none', len(COVERAGE['recipes_failed_to_build'])))
+    ASSUMPTIONS[:] = [a for a in ASSUMPTIONS if not a.startswith('probe coverage of this run')] + [note]
     return out
